@@ -195,7 +195,7 @@ class Parser(object):
         for units_element in units_elements:
             units_name = units_element.get('name')
             # if it's a defined base unit, we can be add immediately to the model
-            if units_element.get('base_units'):
+            if units_element.get('base_units') == 'yes':
                 self.model.units.add_base_unit(units_name)
                 units_found.add(units_name)
             # all other units are collected (because they may depend on further user-defined units)
